@@ -692,6 +692,10 @@ class Book:
             sig = "C16:%s:%s:%s" % (step["name"], fam, kind)
             if kind.startswith("library-crash:"):
                 sig = "C16:library-crash:%s:%s" % (fam, kind[len("library-crash:"):])
+            elif kind == "matrix-missing":          # one defect per command, whatever the variant of the arguments
+                sig = "C16:%s:%s:%s" % (step["name"].split("+")[0].split("~")[0], fam, kind)
+            elif kind == "readonly-command-rewrote-grid":
+                sig = "C16:%s:any:%s" % (step["name"].split("+")[0].split("~")[0], kind)
             sigs.append(sig)
             self.sigcount[sig] = self.sigcount.get(sig, 0) + 1
             if self.emitted.get(sig, 0) < 3:
